@@ -70,6 +70,9 @@ Kind, (K_INT, K_SLICE, K_FULL, K_ELL, K_IARR, K_MASK) = z3.EnumSort(
 f_kind = z3.Function('kind', Idx, Kind)
 Mult = z3.Function('Mult', Idx, z3.IntSort(), z3.IntSort())
 IdxArr = z3.ArraySort(z3.IntSort(), Idx)
+# Sel(t, n, w): how often position w of an axis of length n is selected by the item t when t is an int, a slice or a
+# boolean mask (0 or 1: these kinds never select a position twice) — NumPy's indexing semantics, a dependency
+Sel = z3.Function('Sel', Idx, z3.IntSort(), z3.IntSort(), z3.IntSort())
 # shape of an array-valued index item (integer array or mask): rank >= 1, dims >= 0, size = number of entries
 f_irank = z3.Function('idx_rank', Idx, z3.IntSort())
 f_ishape = z3.Function('idx_shape', Idx, IntArr)
@@ -146,7 +149,9 @@ def is_basic(t):
 def mult_axioms():
     t = z3.Const('t!ax', Idx)
     w = z3.Int('w!ax')
-    return [z3.ForAll([t, w], Mult(t, w) >= 0, patterns=[Mult(t, w)])]
+    n = z3.Int('n!ax')
+    return [z3.ForAll([t, w], Mult(t, w) >= 0, patterns=[Mult(t, w)]),
+            z3.ForAll([t, n, w], z3.And(Sel(t, n, w) >= 0, Sel(t, n, w) <= 1), patterns=[Sel(t, n, w)])]
 
 
 # ------------------------------------------------------------------------------------------ values
@@ -234,6 +239,30 @@ class IdxV(Value):
             sh = f_ishape(t)
             return SSeq(f_irank(t), lambda k: sh[to_z3(k)], 'tuple')
         raise Unsupported(f'attribute {name} of an index item')
+
+
+class ArangeV(Value):
+    """jnp.arange(n); only `jnp.arange(n)[item]` is modelled: the integer array of the positions an int / slice / mask
+    item selects along an axis of length n — multiset view: Mult(result, w) = Sel(item, n, w) for 0 <= w < n, else 0"""
+
+    def __init__(self, n):
+        self.n = n
+
+    def py_getitem(self, interp, idx):
+        if not isinstance(idx, IdxV):
+            raise Unsupported('jnp.arange(n)[...] with something else than one index item')
+        run = interp.run
+        interp.used_externals.add('numpy-indexing jnp.arange(n)[item]')
+        t, n = idx.term, to_z3(self.n)
+        run.oblige(f'{interp.cur_name()}/pre:arange-indexed-by-an-int-slice-or-mask',
+                   z3.Or(is_int(t), is_slice(t), is_full(t), is_mask(t)), kind='pre')
+        r = fresh_const('positions', Idx)
+        run.assume(is_iarr(r))
+        run.assume(idx_shape_facts(r))
+        out = IdxV(r)
+        out.mult = lambda w: z3.If(z3.And(0 <= w, w < n), Sel(t, n, w), 0)
+        out.positions_of = (idx, self.n)
+        return out
 
 
 class IdxElemwise(Value):
@@ -614,6 +643,12 @@ def install(T: Theory):
     @T.ext('jax.numpy.result_type')
     def _result_type(interp, *leaves):
         return DTypeTok(leaves)
+
+    @T.ext('jax.numpy.arange')
+    def _arange(interp, n, *a, **k):
+        if a or k or not is_intlike(n):
+            raise Unsupported('jnp.arange outside the modelled form arange(n)')
+        return ArangeV(n)
 
     return T
 
